@@ -43,6 +43,10 @@ type c10Step struct {
 	PP      []c10KV  `json:"pp,omitempty"`
 	QP      []c10KVs `json:"qp,omitempty"`
 	OS      []Bs     `json:"os,omitempty"`
+	// caller query parameters that reach the request through the auth writer instead of the params writer (names disjoint from QP):
+	// AuthVia "op" = ClientOperation.AuthInfo, "default" = Runtime.DefaultAuthentication
+	AQ      []c10KVs `json:"aq,omitempty"`
+	AuthVia string   `json:"authvia,omitempty"`
 }
 
 type c10In struct {
@@ -54,6 +58,8 @@ type c10In struct {
 	Pattern Bs        `json:"pattern,omitempty"`
 	PP      []c10KV   `json:"pp,omitempty"`
 	QP      []c10KVs  `json:"qp,omitempty"`
+	AQ      []c10KVs  `json:"aq,omitempty"`
+	AuthVia string    `json:"authvia,omitempty"`
 	RS      []Bs      `json:"rs,omitempty"`
 	OS      []Bs      `json:"os,omitempty"`
 	Host    Bs        `json:"host,omitempty"`
@@ -106,7 +112,9 @@ func (c10) Rule() string {
 		"(fixed host/base path/transport schemes, half of them without transport schemes; patterns, parameters, caller queries and operation " +
 		"scheme lists differ per step; the same operation repeated with other values), every step compared with the model, with the " +
 		"predicates, and with the same request on a fresh Runtime; exhaustive over pairs of operation scheme lists up to length 2 on a " +
-		"Runtime without schemes. Non-trivial: a url case with at least one placeholder " +
+		"Runtime without schemes. A third of the cases with caller query parameters have some of them written by an auth writer (operation AuthInfo or " +
+		"Runtime.DefaultAuthentication; client.APIKeyAuth in the query) instead of the params writer, also enumerated against static parameters of " +
+		"the same name. Non-trivial: a url case with at least one placeholder " +
 		"that has a value, or a static query; a scheme case with two or more schemes; every esc/join case; a history of two or more steps."
 }
 
@@ -167,6 +175,20 @@ func (c10) Enumerate(tier string) []any {
 		}
 		out = append(out, c10In{Kind: "url", Host: "h", Base: Bs("/api?u/v=" + v), Pattern: Bs("/pets/{id}/?cb=" + v), PP: pp,
 			Ctor: []string{"", "withclient", "direct"}[i%3]})
+	}
+	// a caller query parameter that collides with a static one of the base path and/or the pattern, written by the params
+	// writer, by the operation's auth writer, or by the Runtime's default auth writer (API key in the query)
+	for _, bp := range [][2]string{{"/api?api_key=anonymous", "/pets/{id}"}, {"/api", "/pets/{id}?api_key=anonymous"},
+		{"/api?api_key=base&t=1", "/pets/{id}?api_key=pat"}, {"/api?other=1", "/pets/{id}?token=static"}} {
+		for _, name := range []string{"api_key", "token"} {
+			for _, vs := range [][]Bs{{"s3cr3t"}, {""}, {"k1", "k2"}, {}} {
+				kv := []c10KVs{{Bs(name), vs}}
+				pp := []c10KV{{"id", "7"}}
+				out = append(out, c10In{Kind: "url", Host: "h", Base: Bs(bp[0]), Pattern: Bs(bp[1]), PP: pp, QP: kv})
+				out = append(out, c10In{Kind: "url", Host: "h", Base: Bs(bp[0]), Pattern: Bs(bp[1]), PP: pp, AQ: kv, AuthVia: "op"})
+				out = append(out, c10In{Kind: "url", Host: "h", Base: Bs(bp[0]), Pattern: Bs(bp[1]), PP: pp, AQ: kv, AuthVia: "default"})
+			}
+		}
 	}
 	// every single byte through the escaping functions
 	for c := 0; c < 256; c++ {
@@ -307,7 +329,7 @@ func c10GenHist(r *rand.Rand) c10In {
 				u.PP = append(u.PP, c10KV{kv.K, Bs(c10Val(r))})
 			}
 		}
-		in.Steps = append(in.Steps, c10Step{Pattern: u.Pattern, PP: u.PP, QP: u.QP, OS: u.OS})
+		in.Steps = append(in.Steps, c10Step{Pattern: u.Pattern, PP: u.PP, QP: u.QP, OS: u.OS, AQ: u.AQ, AuthVia: u.AuthVia})
 	}
 	return in
 }
@@ -401,9 +423,41 @@ func c10GenURL(r *rand.Rand, adversarial bool) c10In {
 		}
 		in.QP = append(in.QP, c10KVs{Bs(c10QNames[qperm[j]]), vs})
 	}
+	// a third of the cases with caller query parameters: some of them are written by the auth writer (API key in the query)
+	if len(in.QP) > 0 && r.Intn(3) == 0 {
+		cut := r.Intn(len(in.QP)) // QP[cut:] move to the auth writer
+		in.AQ = append([]c10KVs(nil), in.QP[cut:]...)
+		in.QP = in.QP[:cut]
+		in.AuthVia = []string{"op", "default"}[r.Intn(2)]
+	}
 	in.RS = c10SchemeList(r)
 	in.OS = c10SchemeList(r)
 	return in
+}
+
+// c10AuthWriter writes the given query parameters the way an API-key auth writer does: the real client.APIKeyAuth(name, query, v)
+// for a single value, SetQueryParam with the value list otherwise; several of them composed with client.Compose.
+func c10AuthWriter(aq []c10KVs) runtime.ClientAuthInfoWriter {
+	var ws []runtime.ClientAuthInfoWriter
+	for _, kv := range aq {
+		kv := kv
+		if len(kv.Vs) == 1 {
+			ws = append(ws, client.APIKeyAuth(string(kv.K), "query", string(kv.Vs[0])))
+			continue
+		}
+		ws = append(ws, runtime.ClientAuthInfoWriterFunc(func(req runtime.ClientRequest, _ strfmt.Registry) error {
+			return req.SetQueryParam(string(kv.K), bsList(kv.Vs)...)
+		}))
+	}
+	if len(ws) == 1 {
+		return ws[0]
+	}
+	return client.Compose(ws...)
+}
+
+// c10CallerQ: every query parameter the caller sets, through the params writer or through the auth writer
+func c10CallerQ(qp, aq []c10KVs) []c10KVs {
+	return append(append([]c10KVs(nil), qp...), aq...)
 }
 
 const c10Runs = 12
@@ -479,6 +533,14 @@ func c10Build(rt *client.Runtime, st c10Step, run int) (out c10Out) {
 			}),
 			Reader: runtime.ClientResponseReaderFunc(func(runtime.ClientResponse, runtime.Consumer) (interface{}, error) { return nil, nil }),
 		}
+		rt.DefaultAuthentication = nil
+		if len(st.AQ) > 0 {
+			if st.AuthVia == "default" {
+				rt.DefaultAuthentication = c10AuthWriter(st.AQ)
+			} else {
+				op.AuthInfo = c10AuthWriter(st.AQ)
+			}
+		}
 		req, err := rt.CreateHttpRequest(op)
 		if err != nil {
 			out.Err, out.ErrMsg = true, err.Error()
@@ -508,7 +570,7 @@ func c10Once(in c10In, run int) (out c10Out) {
 	if panicked, msg := recoverTo(func() { rt = c10NewRuntime(in) }); panicked {
 		return c10Out{Panic: msg}
 	}
-	return c10Build(rt, c10Step{Pattern: in.Pattern, PP: in.PP, QP: in.QP, OS: in.OS}, run)
+	return c10Build(rt, c10Step{Pattern: in.Pattern, PP: in.PP, QP: in.QP, OS: in.OS, AQ: in.AQ, AuthVia: in.AuthVia}, run)
 }
 
 // c10Distinct collects distinct results (error texts dropped), sorted.
@@ -539,7 +601,7 @@ func (d *c10Distinct) sorted() []c10Out {
 }
 
 func c10StepIn(in c10In, st c10Step) c10In {
-	return c10In{Kind: "url", Ctor: in.Ctor, Base: in.Base, Host: in.Host, RS: in.RS, Pattern: st.Pattern, PP: st.PP, QP: st.QP, OS: st.OS}
+	return c10In{Kind: "url", Ctor: in.Ctor, Base: in.Base, Host: in.Host, RS: in.RS, Pattern: st.Pattern, PP: st.PP, QP: st.QP, OS: st.OS, AQ: st.AQ, AuthVia: st.AuthVia}
 }
 
 func (c10) Run(inAny any) any {
@@ -626,7 +688,7 @@ func (c10) Coq(inAny any, obsAny any) string {
 	case "url":
 		return fmt.Sprintf("CUrl %s %s %s %s %s %s %s %s %s", coqBool(in.Ctor != "direct"), coqBytes(string(in.Base)), coqBytes(string(in.Pattern)),
 			coqList(in.PP, func(kv c10KV) string { return coqPair(coqBytes(string(kv.K)), coqBytes(string(kv.V))) }),
-			c10CoqKVs(in.QP), coqBytesList(bsList(in.RS)), coqBytesList(bsList(in.OS)), coqBytes(string(in.Host)),
+			c10CoqKVs(c10CallerQ(in.QP, in.AQ)), coqBytesList(bsList(in.RS)), coqBytesList(bsList(in.OS)), coqBytes(string(in.Host)),
 			coqList(obs.Outs, c10CoqOut))
 	case "hist":
 		type hs struct {
@@ -641,7 +703,7 @@ func (c10) Coq(inAny any, obsAny any) string {
 			coqList(steps, func(h hs) string {
 				return fmt.Sprintf("(HStep %s %s %s %s %s %s)", coqBytes(string(h.st.Pattern)),
 					coqList(h.st.PP, func(kv c10KV) string { return coqPair(coqBytes(string(kv.K)), coqBytes(string(kv.V))) }),
-					c10CoqKVs(h.st.QP), coqBytesList(bsList(h.st.OS)), coqList(h.outs, c10CoqOut), coqList(h.fresh, c10CoqOut))
+					c10CoqKVs(c10CallerQ(h.st.QP, h.st.AQ)), coqBytesList(bsList(h.st.OS)), coqList(h.outs, c10CoqOut), coqList(h.fresh, c10CoqOut))
 			}))
 	case "scheme":
 		got := "[]"
@@ -840,6 +902,13 @@ func (c10) Category(inAny any, obsAny any) (string, bool) {
 	}
 	if len(in.QP) > 0 {
 		tags = append(tags, "callerq")
+	}
+	if len(in.AQ) > 0 {
+		if in.AuthVia == "default" {
+			tags = append(tags, "authq-default")
+		} else {
+			tags = append(tags, "authq-op")
+		}
 	}
 	lit := joined
 	for _, kv := range in.PP {
